@@ -456,7 +456,7 @@ impl Prop for P {
 
     fn assumptions() -> Vec<&'static str> {
         vec![
-            "normals are compared with the library's own gradient evaluator on the unsimplified function (C05 ties that evaluator to the true derivative)",
+            "normals are compared bit-for-bit with the library's own gradient evaluator on the unsimplified function under the same matrix, and with the model-space gradient (unit seeds, no matrix) pushed through the f64 quotient-rule Jacobian of the voxel -> model map within 1e-3 of the summed magnitudes (C05 ties the model-space gradient to the true derivative)",
         ]
     }
 }
